@@ -92,13 +92,15 @@ class P:
 PARAM_ATTRS = {'noundef','nonnull','zeroext','signext','noalias','nocapture','readonly','readnone','writeonly',
                'returned','inreg','nest','immarg','nofree','swiftself','noreturn','inalloca','nounwind'}
 def skip_param_attrs(p):
+    p.last_align = None
     while True:
         k, v = p.peek()
         if v in PARAM_ATTRS: p.next()
         elif v in ('align', 'dereferenceable', 'dereferenceable_or_null'):
             p.next()
-            if p.accept('('): p.next(); p.expect(')')
-            else: p.next()
+            if p.accept('('): n = p.next()[1]; p.expect(')')
+            else: n = p.next()[1]
+            if v == 'align': p.last_align = int(n)
         elif v in ('sret', 'byval', 'byref', 'preallocated', 'elementtype'):
             p.next(); p.expect('('); p.type(); p.expect(')')
         else: break
@@ -233,6 +235,8 @@ def strip_meta(p):
     pass
 
 def parse_ins(s):
+    # drop metadata attachments (tbaa, nosanitize, noundef, ...) except !range, which carries a value constraint
+    s = re.sub(r',\s*!(?!range\b)[A-Za-z_.][-A-Za-z_.0-9]*\s+![0-9]+', '', s)
     p = P(tokenize(s)); I = Ins(); I.res = None; I.text = s
     if p.peek()[0] == 'lname' and p.peek(1)[1] == '=':
         I.res = p.next()[1]; p.next()
@@ -298,10 +302,10 @@ def parse_ins(s):
         # rt may be full function type for varargs; callee
         k, v = p.peek()
         I.callee = value(p, None)
-        p.expect('('); I.args = []
+        p.expect('('); I.args = []; I.arg_aligns = []
         if not p.accept(')'):
             while True:
-                t = p.type(); skip_param_attrs(p); I.args.append(value(p, t))
+                t = p.type(); skip_param_attrs(p); I.args.append(value(p, t)); I.arg_aligns.append(p.last_align)
                 if p.accept(')'): break
                 p.expect(',')
         I.ty = rt.ret if rt.k == 'func' else rt
@@ -543,8 +547,8 @@ class Emit:
                     n = I.ty.n; ct = s.ct(I.ty); wide = 'uint64_t' if n > 32 else 'uint32_t'
                     a = s.val(I.a); b_ = s.val(I.b)
                     if op in ('udiv', 'urem'): ub('  ASSERT_UB(%s != 0, "division by zero");' % b_)
-                    if op in ('shl', 'lshr'): ub('  ASSERT_UB(%s < %d, "shift amount out of range");' % (b_, n))
-                    if 'nsw' in I.flags and op in ('add', 'sub', 'mul') and n in (8, 16, 32, 64):
+                    if op in ('shl', 'lshr') and s.opts.get('poison'): ub('  ASSERT_UB(%s < %d, "shift amount out of range");' % (b_, n))
+                    if 'nsw' in I.flags and s.opts.get('poison') and op in ('add', 'sub', 'mul') and n in (8, 16, 32, 64):
                         wt = '__int128' if n == 64 else 'int64_t'
                         ub('  ASSERT_UB(((%s)(int%d_t)%s %s (%s)(int%d_t)%s) >= (%s)INT%d_MIN && ((%s)(int%d_t)%s %s (%s)(int%d_t)%s) <= (%s)INT%d_MAX, "signed overflow");'
                            % (wt, n, a, cop, wt, n, b_, wt, n, wt, n, a, cop, wt, n, b_, wt, n))
@@ -562,7 +566,7 @@ class Emit:
                     if op in ('sdiv', 'srem'):
                         ub('  ASSERT_UB(%s != 0, "division by zero");' % b_)
                         ub('  ASSERT_UB(!((int%d_t)%s == INT%d_MIN && (int%d_t)%s == -1), "signed division overflow");' % (n, a, n, n, b_))
-                    else: ub('  ASSERT_UB(%s < %d, "shift amount out of range");' % (b_, n))
+                    elif s.opts.get('poison'): ub('  ASSERT_UB(%s < %d, "shift amount out of range");' % (b_, n))
                     code.append('  %s = (%s)((int%d_t)%s %s (int%d_t)%s);' % (r, s.ct(I.ty), n, a, cop, n, b_))
                 elif op == 'icmp':
                     t = I.a.ty; a = s.val(I.a); b_ = s.val(I.b); pr = I.pred
@@ -632,6 +636,10 @@ class Emit:
                     code.append('    default: %s }' % jump(b['label'], I.default))
                 elif op == 'ret': code.append('  return%s;' % (' ' + s.val(I.a) if I.a else ''))
                 elif op == 'unreachable': code.append('  UNREACHABLE();')
+                elif op == 'extractvalue' and I.a.k == 'agg':
+                    v = I.a                                        # constant aggregate (e.g. a member-function pointer): select statically
+                    for ix in I.idx: v = v.el[ix]
+                    code.append('  %s = %s;' % (r, s.val(v)))
                 elif op == 'extractvalue':
                     acc = s.val(I.a); t = I.a.ty
                     for ix in I.idx:
@@ -653,6 +661,10 @@ class Emit:
                         n = cal.name
                         if 'lifetime' in n or 'noalias.scope' in n or n.startswith('@llvm.dbg') or n.startswith('@llvm.invariant'): continue
                         if n.startswith('@llvm.assume'): ub('  ASSUME_LLVM(%s);' % s.val(I.args[0])); continue
+                        if n.startswith('@llvm.memcpy') or n.startswith('@llvm.memmove') or n.startswith('@llvm.memset'):
+                            if s.opts.get('align'):              # the alignment the compiler was told it may assume for the operands
+                                for a, al in list(zip(I.args, I.arg_aligns))[:2]:
+                                    if al and al > 1 and a.ty.k == 'ptr': ub('  ASSERT_ALIGN(%s, %d);' % (s.val(a), al))
                         if n.startswith('@llvm.memcpy') or n.startswith('@llvm.memmove'):
                             code.append('  memmove(%s, %s, %s);' % tuple(s.val(a) for a in I.args[:3])); continue
                         if n.startswith('@llvm.memset'):
